@@ -14,9 +14,13 @@ var (
 	formatInPlace    bool
 	formatIndentSize int
 	formatUppercase  bool
-	formatCompact    bool
-	formatCheck      bool
-	formatMaxLine    int
+	// formatNoUppercase is the --no-uppercase negation flag. It has its own variable:
+	// bound to formatUppercase, giving the flag set that variable to true, so that
+	// --no-uppercase upper-cased keywords instead of keeping their case.
+	formatNoUppercase bool
+	formatCompact     bool
+	formatCheck       bool
+	formatMaxLine     int
 )
 
 // formatCmd represents the format command
@@ -79,7 +83,7 @@ func formatRun(cmd *cobra.Command, args []string) error {
 	opts := FormatterOptionsFromConfig(cfg, flagsChanged, FormatterFlags{
 		InPlace:    formatInPlace,
 		IndentSize: formatIndentSize,
-		Uppercase:  formatUppercase,
+		Uppercase:  formatUppercase && !formatNoUppercase,
 		Compact:    formatCompact,
 		Check:      formatCheck,
 		MaxLine:    formatMaxLine,
@@ -140,7 +144,7 @@ func formatFromStdin(cmd *cobra.Command) error {
 	opts := FormatterOptionsFromConfig(cfg, flagsChanged, FormatterFlags{
 		InPlace:    false, // always false for stdin
 		IndentSize: formatIndentSize,
-		Uppercase:  formatUppercase,
+		Uppercase:  formatUppercase && !formatNoUppercase,
 		Compact:    formatCompact,
 		Check:      formatCheck,
 		MaxLine:    formatMaxLine,
@@ -195,7 +199,7 @@ func formatInlineSQL(cmd *cobra.Command, sql string) error {
 	opts := FormatterOptionsFromConfig(cfg, flagsChanged, FormatterFlags{
 		InPlace:    false,
 		IndentSize: formatIndentSize,
-		Uppercase:  formatUppercase,
+		Uppercase:  formatUppercase && !formatNoUppercase,
 		Compact:    formatCompact,
 		Check:      formatCheck,
 		MaxLine:    formatMaxLine,
@@ -239,5 +243,5 @@ func init() {
 	formatCmd.Flags().IntVar(&formatMaxLine, "max-line", 80, "maximum line length (config: format.max_line_length)")
 
 	// Add negation flags
-	formatCmd.Flags().BoolVar(&formatUppercase, "no-uppercase", false, "keep original keyword case")
+	formatCmd.Flags().BoolVar(&formatNoUppercase, "no-uppercase", false, "keep original keyword case")
 }
